@@ -312,6 +312,10 @@ func (in *Interp) jsonEncode(fr *frame, v Value, t types.Type, depth int) (*jnod
 		if m == nil {
 			return &jnode{kind: 'z'}, nil
 		}
+		if in.race != nil {
+			in.curFn = fr.fn
+			in.raceAccessMap(m, false)
+		}
 		n := &jnode{kind: 'o'}
 		type kv struct {
 			k string
